@@ -246,7 +246,9 @@ def stepLicmp (st : St) (ws : List String) : St × String :=
     | _, _, _, _ => (st, "bad-op")
   | ["licmp", "pkt", k, flags, hex] =>
     match kindOf k, parseNat flags 4, bytesOfHex hex with
-    | some k, some _, some data => (st, pktReply (pktRun 3 k data))
+    | some k, some fl, some data =>
+      -- packet.go lazyPacket.decodeNextLayer: with Lazy an empty input never reaches the first decoder
+      if fl % 2 = 1 && data.isEmpty then (st, "ok t=0 e=0 | ") else (st, pktReply (pktRun 3 k data))
     | _, _, _ => (st, "bad-op")
   | ["licmp", "dlp", k, hex] =>
     match kindOf k, bytesOfHex hex with
